@@ -46,8 +46,64 @@ func (obfuscator Obfuscator) ObfuscateJSON(
 		return "", err
 	}
 
-	bytes := obfuscatedJSON.MarshalTo([]byte{})
+	bytes := marshalJSON([]byte{}, obfuscatedJSON)
 	return string(bytes), nil
+}
+
+// marshalJSON marshals value like fastjson's MarshalTo, except that object keys are written by
+// appendJSONString: fastjson quotes a key that needs escaping with strconv.AppendQuote, whose Go
+// syntax ("\x1b", "\a", "\v", "\U000e0001") is not valid JSON.
+// Value.Type() is deliberately not used here: it would unescape raw (excluded) strings in place.
+func marshalJSON(dst []byte, value *fastjson.Value) []byte {
+	if object := value.GetObject(); object != nil {
+		dst = append(dst, '{')
+		first := true
+		object.Visit(func(key []byte, item *fastjson.Value) {
+			if !first {
+				dst = append(dst, ',')
+			}
+			first = false
+			dst = appendJSONString(dst, key)
+			dst = append(dst, ':')
+			dst = marshalJSON(dst, item)
+		})
+		return append(dst, '}')
+	}
+	if items := value.GetArray(); len(items) > 0 {
+		dst = append(dst, '[')
+		for i, item := range items {
+			if i > 0 {
+				dst = append(dst, ',')
+			}
+			dst = marshalJSON(dst, item)
+		}
+		return append(dst, ']')
+	}
+	// primitives and empty arrays contain no keys
+	return value.MarshalTo(dst)
+}
+
+// appendJSONString appends raw as a JSON string (RFC 8259 escapes only)
+func appendJSONString(dst []byte, raw []byte) []byte {
+	const hexDigits = "0123456789abcdef"
+	dst = append(dst, '"')
+	for _, char := range raw {
+		switch {
+		case char == '"' || char == '\\':
+			dst = append(dst, '\\', char)
+		case char == '\n':
+			dst = append(dst, '\\', 'n')
+		case char == '\r':
+			dst = append(dst, '\\', 'r')
+		case char == '\t':
+			dst = append(dst, '\\', 't')
+		case char < 0x20:
+			dst = append(dst, '\\', 'u', '0', '0', hexDigits[char>>4], hexDigits[char&0xf])
+		default:
+			dst = append(dst, char)
+		}
+	}
+	return append(dst, '"')
 }
 
 func (obfuscator Obfuscator) obfuscateJSON(
